@@ -75,6 +75,9 @@ func checkC16(c *Ctx, r *Report) {
 	for _, n := range []string{"APLPrefix.copy", "copyNet", "Copy", "Msg.Copy"} {
 		if f := c.ssaFunc(n); f != nil {
 			copies = append(copies, f)
+		} else if n == "copyNet" {
+			// the helper behind APLPrefix.copy; written out in place, it is examined as part of that method
+			r.note("C16.R1.deep-copy: copyNet does not exist (any more); APLPrefix.copy is examined as it stands")
 		} else {
 			r.cerr("C16.R1.deep-copy", n, "function not found")
 		}
